@@ -1,4 +1,4 @@
-import PlzVerif.Lemmas.DirCacheTar
+import PlzVerif.Lemmas.DirCacheRestore
 import PlzVerif.Generated.C12
 /-!
 C12  Directory cache: faithful, atomic store and retrieve.
@@ -31,25 +31,21 @@ def FactsOK : Bool :=
   C12.pathParts == ["join-b64key", "param2", "param3", "field-Suffix"] &&
   C12.damagedIsMiss &&
   -- since the fix of `compressed-retrieve-enoent-reported-as-hit`: retrieveFiles returns `false, err` for compressed caches
-  C12.enoentIsMiss
+  C12.enoentIsMiss &&
+  -- restoring: EVERY archive entry / requested output is prepared (parent created when the name has a slash, destination
+  -- unlinked unconditionally) before it is written; needed because the open does not truncate
+  C12.retrievePreparesEveryEntry && C12.plainRetrievePreparesEveryOut &&
+  C12.retrieveReadySeq == ["assign", "mkdir-parent-if-slash", "unlink-dest", "return"] &&
+  !C12.retrieveReadyReturnsBeforeUnlink
 
 /-- Obligation a code change can break: the facts extracted from /repo satisfy the side condition. -/
 theorem C12_facts_ok : FactsOK = true := by decide
 
-theorem order_canon : C12.storeOrder = canonOrder := by
-  have h := C12_facts_ok
-  simp only [FactsOK, Bool.and_eq_true, beq_iff_eq] at h
-  exact h.1.1.1.1.1.1.1.1.1
+theorem order_canon : C12.storeOrder = canonOrder := by decide
 
-theorem damaged_is_miss : C12.damagedIsMiss = true := by
-  have h := C12_facts_ok
-  simp only [FactsOK, Bool.and_eq_true, beq_iff_eq] at h
-  exact h.1.2
+theorem damaged_is_miss : C12.damagedIsMiss = true := by decide
 
-theorem enoent_is_miss : C12.enoentIsMiss = true := by
-  have h := C12_facts_ok
-  simp only [FactsOK, Bool.and_eq_true, beq_iff_eq] at h
-  exact h.2
+theorem enoent_is_miss : C12.enoentIsMiss = true := by decide
 
 /-- The compressed retrieve of this run's /repo. -/
 abbrev retrC := retrieveC C12.damagedIsMiss
@@ -141,6 +137,77 @@ theorem C12_store_missing_output_plain (src : Tree) (hsrc : srcOK [] src = true)
       rw [List.any_eq_true]
       exact ⟨o, ho, by simp [hpt o ho o (List.prefix_refl _), hon]⟩
     simp [h0, this]
+
+/-- Every archive entry is prepared before it is written (this run's /repo). -/
+def prepFact : Bool := C12.retrievePreparesEveryEntry && !C12.retrieveReadyReturnsBeforeUnlink
+
+theorem prep_fact : prepFact = true := by decide
+
+/-- What `Store` puts into the tarball: the walked entries of the requested outputs, in order. -/
+def archive (src : Tree) (outs : List Path) : Tree := outs.flatMap (src.below ·)
+
+/-- ROUND TRIP INTO A DIRTY OUTPUT DIRECTORY (compressed): whatever an earlier build left in plz-out — longer files,
+    files where directories come and the other way round, siblings whose names merely start like a directory output —
+    after a complete store a retrieve restores, at and below every requested output, exactly the stored tree.  This is
+    where the per-entry `ensureRetrieveReady` is needed (`prep_fact`): the open does not truncate.
+    `ParentsFree`: no stale non-directory sits where a parent directory of an entry has to be (that is a miss). -/
+theorem C12_roundtrip_compressed_over_stale (src : Tree) (hsrc : srcOK [] src = true) (outs : List Path) (fs0 : CFS)
+    (hexists : ∀ o ∈ outs, src.get o ≠ none) (hout : outs ≠ [])
+    (hes : esOK [] (outs.flatMap (src.below ·)) = true)
+    (d0 : Dest) (hd0 : ParentsFree d0 (outs.flatMap (src.below ·))) (cands : List Path) :
+    retrieveCInto prepFact C12.retrieveOpenTruncates C12.damagedIsMiss (applyOpsC fs0 (storeC src outs)) d0 cands outs =
+      .hit (Dest.listing (fun p => (archive src outs).get p) cands outs) := by
+  have harch : archive src outs = outs.flatMap (src.below ·) := rfl
+  rw [harch]
+  have hfin : applyOpsC fs0 (storeC src outs) .final = some ⟨outs.flatMap (src.below ·), true⟩ := by
+    unfold storeC; rw [order_canon]
+    exact (storeC_complete src hsrc outs fs0).1 hexists
+  have hinit : RInv d0 d0 [] := ⟨fun q h => absurd rfl h, fun q ⟨s, hs, _⟩ _ => (by cases hs), fun q => Or.inl rfl⟩
+  obtain ⟨d, hd, hinv⟩ := restore_all d0 C12.retrieveOpenTruncates (outs.flatMap (src.below ·)) [] d0 hes hd0 hinit
+  simp only [List.nil_append] at hinv
+  unfold retrieveCInto
+  rw [hfin, prep_fact]
+  simp only [hout, if_false, Bool.not_true, Bool.false_eq_true, hd]
+  congr 1
+  unfold Dest.listing
+  apply filterMap_congr'
+  intro p _
+  by_cases hp : (outs.any (·.isPrefixOf p)) = true
+  · simp only [hp, if_true]
+    rw [List.any_eq_true] at hp
+    obtain ⟨o, ho, hop⟩ := hp
+    -- the output itself is an archive entry
+    obtain ⟨e, hem, heq⟩ := get_mem (t := src) (q := o) (hexists o ho)
+    have hin : e ∈ outs.flatMap (src.below ·) := by
+      rw [List.mem_flatMap]
+      exact ⟨o, ho, List.mem_filter.mpr ⟨hem, by rw [heq]; exact isPrefixOf_eq_true_iff.mpr (List.prefix_refl _)⟩⟩
+    have hbelow : ∃ s ∈ outs.flatMap (src.below ·), s.1 <+: p := ⟨e, hin, heq ▸ isPrefixOf_eq_true_iff.mp hop⟩
+    cases hg : Tree.get (outs.flatMap (src.below ·)) p with
+    | none => rw [hinv.clean p hbelow hg]
+    | some v => rw [hinv.have_ p (by rw [hg]; simp), hg]
+  · simp [hp]
+
+-- non-vacuity: directory `d` and its sibling `d.txt`, restored over a longer stale `d.txt`, a stale file inside `d`, and a
+-- stale directory where nothing comes
+example : esOK [] ([["d"], ["d.txt"]].flatMap
+    (Tree.below [(["d"], .dir), (["d", "x"], .file [1] false), (["d.txt"], .file [2] false)] ·)) = true := by decide
+example : retrieveCInto true false true
+    (applyOpsC CFS.empty (storeC [(["d"], .dir), (["d", "x"], .file [1] false), (["d.txt"], .file [2] false)] [["d"], ["d.txt"]]))
+    (fun p => if p = ["d.txt"] then some (.file [9, 9, 9, 9] true) else if p = ["d"] then some .dir
+      else if p = ["d", "old"] then some (.file [7] false) else none)
+    [["d"], ["d", "old"], ["d", "x"], ["d.txt"]] [["d"], ["d.txt"]] =
+    .hit [(["d"], .dir), (["d", "x"], .file [1] false), (["d.txt"], .file [2] false)] := by decide
+
+/-- WITHOUT the per-entry preparation (`prep = false`) the same restore keeps the tail and the mode of the longer stale
+    file — a HIT that is not the stored tree: what the facts `retrievePreparesEveryEntry` /
+    `retrieveReadyReturnsBeforeUnlink` stand against. -/
+theorem C12_witness_unprepared_restore :
+    ∃ (src : Tree) (outs : List Path) (d0 : Dest) (cands : List Path) (t : Tree),
+      retrieveCInto false false true (applyOpsC CFS.empty (storeC src outs)) d0 cands outs = .hit t ∧
+      t ≠ Dest.listing (fun p => (archive src outs).get p) cands outs :=
+  ⟨[(["d.txt"], .file [2] false)], [["d.txt"]],
+   fun p => if p = ["d.txt"] then some (.file [9, 9, 9, 9] true) else none, [["d.txt"]],
+   [(["d.txt"], .file [2, 9, 9, 9] true)], by decide, by decide⟩
 
 /-! ## Miss -/
 
